@@ -529,6 +529,17 @@ class Boom(Exception):
     pass
 
 
+# characters some libraries (str.splitlines) take for line boundaries - ordinary text for the line writers; TLA+ sees
+# them as stand-in symbols
+SEP = {"<CR>": "\r", "<VT>": "\x0b", "<FF>": "\x0c", "<FS>": "\x1c", "<GS>": "\x1d", "<RS>": "\x1e", "<NEL>": "\x85",
+       "<LS>": "\u2028", "<PS>": "\u2029"}
+SEPINV = {v: k for k, v in SEP.items()}
+
+
+def symbols(line):
+    return [SEPINV.get(c, c) for c in line]
+
+
 def chars_of(delta):
     out = []
     for m in _TOK.finditer(delta):
@@ -538,7 +549,7 @@ def chars_of(delta):
             out.append("<ESC>")
         else:
             ch = m.group(3)
-            out.append(ch if ord(ch) < 128 else "?")
+            out.append(SEPINV.get(ch, ch if ord(ch) < 128 else "?"))
     return out
 
 
@@ -564,7 +575,7 @@ class LineRunner(object):
     def line(self, name, lines):
         s = self.s
         recv = s.receiver(1)
-        ev = dict(line_base("line"), name=name, raw="raw" in name, lines=[list(x) for x in lines])
+        ev = dict(line_base("line"), name=name, raw="raw" in name, lines=[symbols(x) for x in lines])
         marks = [len(r.data) for r in s.recs]
         try:
             getattr(recv, name)("\n".join(lines))
@@ -578,9 +589,9 @@ class LineRunner(object):
     def probe(self):
         if not self.probes:
             return
-        self.line("write_line", ["a", "", "bc"])
+        self.line("write_line", ["a", "", "b\rc"])
         if self.s.io is not None:
-            self.line("error_line", ["a", "", "bc"])
+            self.line("error_line", ["a", "", "b\rc"])
 
     def scope(self, op):
         s = self.s
@@ -632,7 +643,7 @@ def run_lines_case(case):
 
 
 def lines_of(shape):
-    return ["".join(x) for x in shape]
+    return ["".join(SEP.get(c, c) for c in x) for x in shape]
 
 
 def agrees_lines(beh, evs):
@@ -715,7 +726,9 @@ def run_lines(ctx, quick):
     ctx.sample({"scope_program": progs[len(progs) // 2]["ops"][:4]})
 
     # ---- code -> spec: every line writer found by reflection x text shapes x (no scope | one scope), every realization
-    shapes = [["a"], ["a", "", "bc"], ["", "a"], [""], ["bc", "bc", "a"], ["x<1>", "a"]]
+    # 0, 1, 2+ trailing newlines; separator characters inside lines (only "\n" starts a new line)
+    shapes = [["a"], ["a", "", "b\rc"], ["", "a"], [""], ["a", ""], ["x<1>", "a", "", ""], ["", "", ""],
+              ["\x0bd\x85\u2028e", "f\x0c\x1c\x1d\x1eg\u2029"]]
     found = {}
     for kind, rs in sorted(reals.items()):
         for r in rs if not quick else G.spread(rs, 2):
@@ -730,7 +743,7 @@ def run_lines(ctx, quick):
                 for lv in levels:
                     for mode, n in (("set", 3), ("incr", 2)):
                         ops.append({"op": "enter", "level": lv, "mode": mode, "n": n})
-                        for sh in shapes[:3]:
+                        for sh in (shapes[1], shapes[5], shapes[7]):
                             ops.append({"op": "line", "name": ent["name"], "lines": sh})
                         ops.append({"op": "exit", "how": "normal" if mode == "set" else "exception"})
                         ops.append({"op": "line", "name": ent["name"], "lines": shapes[1]})
@@ -792,9 +805,9 @@ def random_scope_ops(rng, real, n):
             depth -= 1
         else:
             k = rng.randint(1, 4)
-            lines = [rng.choice(["a", "bc", "", "x1y", "<>"]) for _ in range(k)]
-            if lines[-1] == "" and k > 1:
-                lines[-1] = "z"
+            lines = [rng.choice(["a", "bc", "", "x1y", "<>", "p\rq", "\x0bs\x85", "t\u2028u\u2029", "\x0c\x1cv\x1d\x1e"])
+                     for _ in range(k)]
+            lines += [""] * rng.choice([0, 0, 0, 1, 2])  # the text ends in 0, 1 or 2 newlines
             ops.append({"op": "line", "name": rng.choice(names), "lines": lines})
     ops += [{"op": "exit", "how": rng.choice(["normal", "exception"])} for _ in range(depth)]
     return ops
@@ -833,7 +846,9 @@ def run(ctx):
         "only in the escape \\< (an escaped *tag* such as \\<info> inside a styled run is outside the family - see notes)",
         "colour names and codes: the 16-colour SGR convention of the formatter backend (30-37/39, 90-97; white = 97; "
         "background = foreground + 10); attributes bold 1, dark 2, italic 3, underline 4, blink 5, reverse 7, conceal 8",
-        "line writers: entry points found by reflection whose name contains 'line'; texts without trailing newline, lines "
+        "line writers: entry points found by reflection whose name contains 'line'; only a newline separates lines (CR, VT, "
+        "FF, FS, GS, RS, NEL, LS, PS are ordinary text); a text ending in n newlines is followed by exactly one newline "
+        "either as given (n + 1 at the end) or with its own trailing newlines normalised to one - nothing in between; lines "
         "without blanks; raw writers may or may not indent (they write 'without formatting'); SGR sequences around the text "
         "of a decorated output are not counted",
         "COLUMNS=80; a section output is alone on its stream",
